@@ -123,7 +123,7 @@ def run_case(case):
 
 
 def enumerations(tier, shard, nshards):
-    sizes = [1500] if tier == "quick" else [999, 1000, 1001, 2500, 6000]
+    sizes = [4500] if tier == "quick" else [999, 1000, 1001, 4096, 4097, 9000]
 
     def gen():
         k = 0
